@@ -577,7 +577,7 @@ def family_run(pid, tier, seed, replay):
             rows += cover_scenarios(v, cfg, store, js, stateless, prime, seed, rnd, limit, "cov%d." % i)
         n_cover = len(rows)
         phase("cover")
-        rows += simulate_scenarios(v, fam["gen"], 100 if tier == "quick" else 2500, 70, seed, rnd, "sim")
+        rows += simulate_scenarios(v, fam["gen"], 100 if tier == "quick" else 1200, 70, seed, rnd, "sim")
         v.cov["tlc_generated_scenarios"] = len(rows)
         v.cov["cover_scenarios_run"] = n_cover
         rows += corner_scenarios(pid, rnd)
